@@ -46,10 +46,43 @@ TECH = {
  "C20":"interprocedural nilness with summaries, taint+guard, length-fact solver, go/cfg response typestate, must-lockset, panic/assertion tables",
 }
 props=[json.loads(l) for l in open('/verif/properties.jsonl')]
+# the rules actually run per property, from the checker itself
+ACTUAL={}
+for line in subprocess.run(['/verif/bin/emucheck','list'],capture_output=True,text=True).stdout.splitlines():
+    parts=line.split()
+    if len(parts)>=3 and parts[2].startswith('rules='):
+        seen=[]
+        for r in parts[2][6:].split(','):
+            if r not in seen: seen.append(r)
+        ACTUAL[parts[0]]=','.join(sorted(seen))
+EXTRA = {
+ "C01": "; cell scans / column lookups do not rely on an order that does not hold mid-request; timestamps from the injectable clock; whole-millisecond test on every accepting path",
+ "C02": "; the content file is replaced by a truncating write; upload ids are the atomic increment's own result; every mutator in its matching critical section",
+ "C03": "; the scan variant agrees with which range ends are present; no nil bound; no per-range scratch value carried over; a sent chunk buffer is not recycled",
+ "C04": "; conditions evaluated derive from the request on every path (backward flow); no per-source condition carried over from the previous source",
+ "C05": "; copyRow gives copies their own cell slices; in-place compactions are truncated before use",
+ "C06": "; GC never writes back a stale row; copyRow depth",
+ "C07": "; no nested object locks; check-then-act on the bucket map under one hold; stored memory-store records are never assigned in place",
+ "C08": "; registry check-then-act under one hold; a created table starts from a wiped directory and Clear reopens with nuke; walk callbacks examine their error first",
+ "C09": "; Copy does not mix source and destination names; any return on an unreadable sidecar excludes not-exist first; siblings use the same named parameters; scrubbed fields are recomputed",
+ "C10": "; every mutator in its matching critical section; stored records immutable",
+ "C11": "; walk callback examines its error first; sibling parameter use",
+ "C12": "; copyRow depth; no row deletion from inside an iteration",
+ "C13": "; timestamps from the injectable clock; column lookups do not rely on qualifier order; appendOrReplaceCell uniqueness conditions; read and write-back of every row RPC under one hold",
+ "C14": "; registry check-then-act under one hold; no nil scan bound; rows closed only at shutdown",
+ "C15": "; no nested object locks; decode target is not a shallow copy of a store object; stored records immutable",
+ "C16": "; GC cut-offs from the injectable clock; every row store stamps the write-activity clock; engine methods have only their own effect and take no locks",
+ "C17": "; dispatch shape; engine contracts (reopen passes nuke, Create wipes, single-effect methods, no engine locks, Close only at shutdown)",
+ "C18": "; every table.rows access under the lock; no stale GC write-back; store only on success; engines take no locks; rows closed only at shutdown; sent buffers not recycled",
+ "C19": "; Run cannot return on the acquired edge without the deferred unlock; decrement and eviction in one hold",
+ "C20": "; guarded-map check-then-act, nested object locks, use after ownership transfer, carried-over scratch values, engine locks / Close, in-place record updates",
+}
 checks=[]
 for p in props:
     pid=p['id']
     rules, text = LEVEL[pid]
+    rules = ACTUAL.get(pid, rules)
+    text = text + EXTRA.get(pid, '')
     checks.append({
       "property_id": pid,
       "quick_cmd": f"./check.sh {pid} quick",
@@ -60,7 +93,7 @@ for p in props:
       "level_claimed": {"category":"other",
         "text": f"Static analysis of /repo's current source (no execution). Decides {text}. Rules {rules} (DESIGN.md §4); every rule instance is an obligation that holds on ALL paths / call sites / lock contexts, which is what the sampled tests cannot establish. It decides that structural part and not the behaviour; the clauses that depend on runtime values are listed in the evidence under clauses_not_decided.",
         "design_ref": f"DESIGN.md §5 {pid}, §4 {rules}"},
-      "level_note": "Trusted: go/types, x/tools v0.29.0 go/ssa+go/cfg, the rule implementations (self-tested both ways in the thorough tier by overlay mutants and by re-introducing each repaired defect), library contracts listed in DESIGN.md §8. Lock identity is (struct type, field).",
+      "level_note": "Trusted: go/types, x/tools v0.29.0 go/ssa+go/cfg, the rule implementations (self-tested both ways in the thorough tier by overlay mutants and by the seeded / behaviour-preserving corpora; tools/matrix.py additionally re-introduces each repaired defect), library contracts listed in DESIGN.md §8. Lock identity is (struct type, field).",
       "technique": TECH[pid],
     })
 m={
@@ -70,7 +103,7 @@ m={
  "engines":[{"name":"emucheck","path":"/verif/cmd/emucheck","serves_properties":[p['id'] for p in props],"kind_free_text":"repository-specific static analyser (go/packages + go/ssa + go/cfg, x/tools v0.29.0): must-lockset dataflow, dominance/fact queries, provenance and access-path identity, interprocedural nilness, response typestate, sibling cross-checks"}],
  "checks":checks,
  "not_applicable":[],
- "notes":"Static analysis only (DESIGN.md). All claims are level 'other': each check decides named structural necessary conditions of its property on /repo's current source and lists the clauses it does not decide. Genuine defects found were repaired by 'fix:' commits in /repo or are listed in known_findings.json. thorough = quick + both-ways self-test of the rules by in-memory overlay mutants (mutants.json)."
+ "notes":"Static analysis only (DESIGN.md). All claims are level 'other': each check decides named structural necessary conditions of its property on /repo's current source and lists the clauses it does not decide. Genuine defects found were repaired by 'fix:' commits in /repo or are listed in known_findings.json. thorough = quick + both-ways self-test of the rules: in-memory overlay mutants (mutants.json) and the committed regression corpora on scratch copies of /repo (seeded/: independently produced breaking changes must be reported; benign/: independent behaviour-preserving refactorings must stay silent)."
 }
 json.dump(m,open('/verif/MANIFEST.json','w'),indent=1)
 # fixed entries
